@@ -624,13 +624,16 @@ def commitTables (tables committed : Tables) : List String → Tables
 def commit (s : State) : State :=
   { s with marks := [], committed := commitTables s.tables s.committed s.marks }
 
+def removeTable (ts : Tables) (n : String) : Tables := ts.filter fun e => e.1 != n
+
 /-- ROLLBACK: every marked table goes back to its committed state (file re-read / restore point of a temporary
-    table / the session's copy of STDIN); a marked table without committed state keeps its contents -/
+    table / the session's copy of STDIN); a marked table without committed state was CREATEd in the transaction:
+    its file is removed (lib/file/handler.go close: `openType == ForCreate` → os.Remove) and the table is gone -/
 def rollbackTables (tables committed : Tables) : List String → Tables
   | [] => tables
   | n :: ns =>
     match lookupT committed n with
-    | none => rollbackTables tables committed ns
+    | none => rollbackTables (removeTable tables n) committed ns
     | some t => rollbackTables (setTable tables n t) committed ns
 
 def rollback (s : State) : State :=
